@@ -58,7 +58,11 @@ class Layout:
         if not isinstance(other, Layout):
             return NotImplemented
         return (
-            self.static_traps == other.static_traps and self.fillable == other.fillable
+            self.static_traps == other.static_traps
+            and self.fillable == other.fillable
+            and self.has_cz == other.has_cz
+            and self.has_local == other.has_local
+            and self.special_grid == other.special_grid
         )
 
     def bounding_box(self) -> tuple[float, float, float, float]:
@@ -69,12 +73,14 @@ class Layout:
         ymax = float("-inf")
 
         for zone in chain(self.static_traps.values(), self.special_grid.values()):
-            if zone.x_init is not None:
-                xmin = min(xmin, zone.x_init)
-                xmax = max(xmax, zone.x_init + zone.width)
-            if zone.y_init is not None:
-                ymin = min(ymin, zone.y_init)
-                ymax = max(ymax, zone.y_init + zone.height)
+            if zone.x_init is None or zone.y_init is None:
+                # a zone with an empty axis has no sites
+                continue
+
+            xmin = min(xmin, zone.x_init)
+            xmax = max(xmax, zone.x_init + zone.width)
+            ymin = min(ymin, zone.y_init)
+            ymax = max(ymax, zone.y_init + zone.height)
 
         if (
             xmin == float("inf")
